@@ -34,12 +34,51 @@ struct Ctx {
     deep: bool,
     /// an 8128-entry metric file (Metric::save names it metric.flop), used as a longer decoy
     metric_flop: Vec<u8>,
+    /// files of 1 MiB and more: a fixed set of cuts judged by the oracle only (no model line)
+    huge: bool,
+}
+
+/// cuts for a file of at least 1 MiB: header, the first rows past every MiB mark (the file is still
+/// >= that size after the cut), middle, 2^16 rows, the last rows, the trailer; each row boundary with
+/// one byte before / after; plus a few random ones
+fn huge_cuts(c: &mut Ctx, len: usize, row: usize) -> Vec<usize> {
+    let nrows = (len - 21) / row;
+    let mut ks: Vec<usize> = vec![0, 1, 10, 18, 19, 20, 21];
+    let mut marks: Vec<usize> = vec![];
+    let mib = 1usize << 20;
+    let mut m = mib;
+    while m < len {
+        let first = (m - 19 + row - 1) / row; // first row boundary at or past the mark
+        marks.extend([first.saturating_sub(1), first, first + 1, first + 2, first + 100]);
+        m += mib;
+    }
+    marks.extend([nrows / 2, (nrows / 2).saturating_sub(1), 65536, 65537, nrows.saturating_sub(2), nrows.saturating_sub(1), nrows]);
+    for _ in 0..(if c.deep { 40 } else { 8 }) {
+        marks.push(c.rng.below(nrows as u64 + 1) as usize);
+    }
+    for j in marks {
+        if j <= nrows {
+            let b = 19 + j * row;
+            ks.extend([b.saturating_sub(1), b, b + 1, b + 2]);
+        }
+    }
+    for _ in 0..(if c.deep { 40 } else { 8 }) {
+        ks.push(c.rng.below(len as u64) as usize);
+    }
+    ks.extend([len - 3, len - 2, len - 1, len]);
+    ks.retain(|k| *k <= len);
+    ks.sort();
+    ks.dedup();
+    ks
 }
 
 /// prefix lengths to try for a file of `len` bytes with rows of `row` bytes after a 19-byte header:
 /// `.0` = every cut given to the real loader and judged by the oracle, `.1` = the subset also sent
 /// to the Lean model (all of them unless the file is large)
 fn cuts(c: &mut Ctx, len: usize, row: usize) -> (Vec<usize>, Vec<usize>) {
+    if c.huge {
+        return (huge_cuts(c, len, row), vec![]);
+    }
     let mut ks: Vec<usize> = vec![];
     if len <= 420 {
         ks.extend(0..=len);
@@ -107,7 +146,7 @@ fn run_cuts(
 ) {
     let (ks, model_ks) = cuts(c, full.len(), rowsize);
     let in_model: std::collections::HashSet<usize> = model_ks.iter().copied().collect();
-    let op = format!("cuts {table} {aux} {} {} {} {}", rows.len(), flat(rows), model_ks.len(), model_ks.iter().map(|k| k.to_string()).collect::<Vec<_>>().join(" "));
+    let op = if c.huge { String::new() } else { format!("cuts {table} {aux} {} {} {} {}", rows.len(), flat(rows), model_ks.len(), model_ks.iter().map(|k| k.to_string()).collect::<Vec<_>>().join(" ")) };
     let mut ans: Vec<String> = Vec::with_capacity(model_ks.len());
     let boundary = |k: usize| k >= 19 && k < full.len() - 1 && (k - 19) % rowsize == 0;
     let every = if full.len() <= 420 { 1 } else { 16 };
@@ -142,7 +181,10 @@ fn run_cuts(
                 c.run.fail("complete-file-does-not-load", &short_op, "the complete content", &tok);
             }
         }
-        if !rows.is_empty() {
+        if c.huge {
+            c.run.distinct(&(table, rows.len(), full.len(), k, fnv(full)));
+            c.run.count(&format!("HUGE {table} file of {} MiB: {cls}{} -> {}", full.len() >> 20, if k >= (1 << 20) && k < full.len() { " (>= 1 MiB left)" } else { "" }, if tok.starts_with("short") { "short" } else { &tok }));
+        } else if !rows.is_empty() {
             c.run.distinct(&(table, rows, k));
         }
         if in_model.contains(&k) {
@@ -151,7 +193,11 @@ fn run_cuts(
     }
     c.run.count_n(&format!("{table} cuts judged by the oracle"), ks.len() as u64);
     c.run.count_n(&format!("{table} cuts also sent to the model"), model_ks.len() as u64);
-    c.run.line(&op, &ans.join(" "));
+    if c.huge {
+        c.run.count_n(&format!("{table} cuts of files >= 1 MiB judged by the oracle only (no model line)"), ks.len() as u64);
+    } else {
+        c.run.line(&op, &ans.join(" "));
+    }
 }
 
 fn profile_case(c: &mut Ctx, rows: &[(Bucket, Edge, u32, u32)]) {
@@ -285,7 +331,7 @@ fn decomp_case(c: &mut Ctx, map: BTreeMap<Abstraction, Histogram>) {
     let s0 = if river { Street::Turn } else { street };
     let s1 = if s0 == Street::Flop { Street::Turn } else { Street::Flop };
     for s in [s0, s1] {
-        let m = any_decomp(&mut c.rng, s, orig.len() + 9, 64);
+        let m = if c.huge { many_decomp(&mut c.rng, s, orig.len() + 9) } else { any_decomp(&mut c.rng, s, orig.len() + 9, 64) };
         std::fs::remove_file(format!("pgcopy/transitions.{s}")).ok();
         Decomp::from(m).save();
         let n = format!("transitions.{s}");
@@ -475,7 +521,7 @@ fn main() {
     quiet_panics();
     let scr = Scratch::new(&out);
     let deep = a.thorough();
-    let mut c = Ctx { run, scr, rng, deep, metric_flop: vec![] };
+    let mut c = Ctx { run, scr, rng, deep, metric_flop: vec![], huge: false };
     {
         let mut m = BTreeMap::new();
         while m.len() < 8128 {
@@ -489,7 +535,7 @@ fn main() {
     let nsmall = if deep { 60 } else { 30 };
     let big = if deep { 3000 } else { 1100 };
     c.run.rule = format!(
-        "files written by the real save() of all four table kinds (0,1,2,3 rows, {nsmall} random tables of up to 5 rows, one of ~60 and one of ~{big} rows per kind, a lookup and a transitions table of ~4200 rows (more than 1024 / 4096 rows); transitions for preflop/flop/turn and the empty river file): for files up to 420 bytes EVERY prefix length 0..len, otherwise bytes 0..40, every row boundary, sampled offsets inside rows (first/second/last byte and random), the last 80 bytes, cuts around row-block multiples (256·j and 2^i rows) and I/O-buffer multiples (8 KiB, 64 KiB, 1 MiB ± 2 bytes), and the complete file — all judged by the oracle, a sample of at most ~500 per large file also sent to the model; before the cuts (every cut for small files, every 16th otherwise) the same thread loads a different, LONGER complete file of the same kind, alternately under the same name and under another street's name, so that state left behind by an earlier load is in place; plus directories holding a blueprint file and the four street lookups where each of the five files in turn is cut at every byte and the COMPOSITE loaders Encoder::load (all four lookups; its content is probed through Encoder::abstraction on games built for every stored isomorphism) and Blueprint::load (profile + encoder) are run; each prefix replaces the file and is loaded by the real load() under catch_unwind; a case = one (file, cut), non-trivial when the table has at least one row; distinct by (table content, cut)");
+        "files written by the real save() of all four table kinds (0,1,2,3 rows, {nsmall} random tables of up to 5 rows, one of ~60 and one of ~{big} rows per kind, a lookup and a transitions table of ~4200 rows (more than 1024 / 4096 rows); transitions for preflop/flop/turn and the empty river file): for files up to 420 bytes EVERY prefix length 0..len, otherwise bytes 0..40, every row boundary, sampled offsets inside rows (first/second/last byte and random), the last 80 bytes, for all four loaders files of 1 MiB and 2 MiB (thorough: 8 MiB) cut in the header, at the first row boundaries past every MiB mark, in the middle, at 2^16 rows, at the last rows and in the trailer, each boundary with one byte before/after (oracle only, no model line), cuts around row-block multiples (256·j and 2^i rows) and I/O-buffer multiples (8 KiB, 64 KiB, 1 MiB ± 2 bytes), and the complete file — all judged by the oracle, a sample of at most ~500 per large file also sent to the model; before the cuts (every cut for small files, every 16th otherwise) the same thread loads a different, LONGER complete file of the same kind, alternately under the same name and under another street's name, so that state left behind by an earlier load is in place; plus directories holding a blueprint file and the four street lookups where each of the five files in turn is cut at every byte and the COMPOSITE loaders Encoder::load (all four lookups; its content is probed through Encoder::abstraction on games built for every stored isomorphism) and Blueprint::load (profile + encoder) are run; each prefix replaces the file and is loaded by the real load() under catch_unwind; a case = one (file, cut), non-trivial when the table has at least one row; distinct by (table content, cut)");
     c.run.exhaustive = false;
 
     for n in [0usize, 1, 2, 3] {
@@ -562,6 +608,32 @@ fn main() {
         let m = any_decomp(&mut c.rng, s, n, nfrom);
         decomp_case(&mut c, m);
     }
+    // ---------------- files of 1 MiB, 2 MiB (thorough: 8 MiB) for all four loaders: a loader that
+    // switches to another code path for large files must still reject every cut
+    c.huge = true;
+    let mib = 1usize << 20;
+    let targets: Vec<usize> = if deep { vec![mib, 2 * mib, 8 * mib] } else if light { vec![mib] } else { vec![mib, 2 * mib] };
+    for t in targets {
+        // rows so that the file is comfortably past the mark (a cut after the mark still leaves >= t bytes)
+        let n = (t + t / 16) / 66;
+        let rows = any_profile_rows(&mut c.rng, n);
+        profile_case(&mut c, &rows);
+        let n = (t + t / 16) / 22;
+        let rows: Vec<(u64, u32)> = (0..n).map(|_| (c.rng.next(), any_f32(&mut c.rng))).collect();
+        metric_case(&mut c, &rows);
+        let n = (t + t / 16) / 26;
+        let s = STREETS[2 + c.rng.below(2) as usize];
+        let mut m = BTreeMap::new();
+        while m.len() < n {
+            m.insert(any_isomorphism(&mut c.rng, s), any_abstraction(&mut c.rng, Some(s)));
+        }
+        lookup_case(&mut c, &m);
+        let n = (t + t / 16) / 34;
+        let s = [Street::Pref, Street::Flop, Street::Turn][c.rng.below(3) as usize];
+        let m = many_decomp(&mut c.rng, s, n);
+        decomp_case(&mut c, m);
+    }
+    c.huge = false;
     c.scr.clean();
     c.run.finish();
 }
